@@ -182,6 +182,8 @@ def install_probes():
             actor = _actor()
             try:
                 toks = reftok.tree_tokens(exprs)
+                if len(toks) > rec.max_tokens:
+                    rec.max_tokens = len(toks)
                 dig = rec.dig(toks)
             except Exception:
                 dig = None
@@ -227,7 +229,10 @@ def install_probes():
             if not is_out:
                 return orig(filename, exprs, *a, **k)
             try:
-                dig = rec.dig(reftok.tree_tokens(exprs))
+                _t = reftok.tree_tokens(exprs)
+                if len(_t) > rec.max_tokens:
+                    rec.max_tokens = len(_t)
+                dig = rec.dig(_t)
                 sdig = reftok.digest(reftok.tree_struct(exprs))
             except Exception:
                 dig = sdig = None
